@@ -78,6 +78,13 @@ def discover(prog):
         todo.extend(callees(f))
     quants = [f for f in reach if f is not elim and f is not entry and
               delegates(f)]
+    if len(quants) > 1:
+        # the checker may have moved part of its work into helpers of its
+        # own: it is the one the eliminator calls
+        direct = [f for f in quants if f in callees(elim)]
+        if len(direct) == 1 and all(f is direct[0] or f in reaches(direct[0])
+                                    for f in quants):
+            quants = direct
     if len(quants) != 1:
         raise Inconclusive('R-CTLS-1', 'quantified-formula checker not '
                            'found (%s)' % [f.short() for f in quants],
